@@ -148,7 +148,11 @@ class Ref:
                 out.append(('le', dv(evalf(rhs) - evalf(lhs)), lab))
             elif c.op == '<=<=':
                 m = evalf(mid)
-                out += [('le', dv(evalf(lhs) - m), lab + '.lo'), ('le', dv(m - evalf(rhs)), lab + '.hi')]
+                # an infinite bound component is no restriction (vector-valued two-sided constraints with mixed bounds)
+                if not (isinstance(lhs, E) and lhs.op == 'inf'):
+                    out.append(('le', dv(evalf(lhs) - m), lab + '.lo'))
+                if not (isinstance(rhs, E) and rhs.op == 'inf'):
+                    out.append(('le', dv(m - evalf(rhs)), lab + '.hi'))
             else:
                 raise ValueError(c.op)
         return out
